@@ -184,6 +184,7 @@ struct J	// tiny object builder
 // ---------------------------------------------------------------------------------------------
 // Shared state between the driver (parent) and its worker child
 static const int MAX_CLAUSES = 96, MAX_SITES = 64, HSET_BITS = 20;
+static const uint64_t EARLY_STOP_VIOLATIONS = 64;	// a shard stops generating cases once it has recorded this many violations
 struct ClauseStat
 {
 	char name[64];
@@ -789,6 +790,11 @@ inline int driver_main(int argc, char** argv, const char* property, const std::f
 	{
 		if(!c.only_gen.empty() && c.only_gen != g.name)
 			continue;
+		if(sh->violations >= EARLY_STOP_VIOLATIONS)
+		{
+			emit("{\"t\":\"early_stop\",\"reason\":\"64 violations recorded in this shard; remaining cases skipped\"}");
+			break;
+		}
 		// indices of this shard
 		uint64_t next = (uint64_t) c.shard;
 		if(c.only_index >= 0)
@@ -824,6 +830,8 @@ inline int driver_main(int argc, char** argv, const char* property, const std::f
 					run_case(g, idx);
 					if(c.only_index >= 0)
 						break;
+					if(sh->violations >= EARLY_STOP_VIOLATIONS)
+						break;	 // the verdict of this shard is settled; a broken library may also be very slow
 				}
 				sh->cur_index = UINT64_MAX;
 				fflush(nullptr);
@@ -890,6 +898,8 @@ inline int driver_main(int argc, char** argv, const char* property, const std::f
 			if(c.only_index >= 0)
 				break;
 			next = died_at + (uint64_t) c.nshards;
+			if(sh->violations >= EARLY_STOP_VIOLATIONS)
+				break;
 		}
 	}
 	// final records
